@@ -265,6 +265,7 @@ def _parse(line):
 
 
 BASE12 = "q\t10\t0\t10\t+\t>r1>r2\t5\t0\t5\t5\t5\t60"
+BASE12_MAPQ0 = "q\t10\t0\t10\t+\t>r1>r2\t5\t0\t5\t5\t5\t0"
 
 
 def F9a_tags_verbatim():
@@ -286,6 +287,20 @@ def F9c_is_primary():
     n = _parse(BASE12 + "\tcg:Z:5=")
     return (s.is_primary, p.is_primary, n.is_primary) == (False, True, True), \
         "is_primary for tp:A:S / tp:A:P / absent = %s" % ((s.is_primary, p.is_primary, n.is_primary),)
+
+
+def F17_stat_without_primary_records():
+    """stat on a GAF whose records are all secondary / MAPQ 0, and on an empty GAF: the report is printed with total = secondary, 0 reads"""
+    d = _tmp()
+    out = []
+    for name, text, total in (("allsec.gaf", BASE12_MAPQ0 + "\ttp:A:P\n" + BASE12 + "\ttp:A:S\tcg:Z:5=\n", 2), ("empty.gaf", "", 0)):
+        p = os.path.join(d, name)
+        open(p, "w").write(text)
+        rc, so, se = _cli(["stat", p])
+        ok = rc == 0 and ("Total alignments: %d" % total) in so and ("Secondary: %d" % total) in so and "Primary: 0" in so \
+            and "Reads with at least one alignment: 0" in so and "Traceback" not in se
+        out.append((name, ok, rc, (se.strip().splitlines() or [""])[-1][:120]))
+    return all(o[1] for o in out), "stat without primary records: %s" % (out,)
 
 
 def F9d_mandatory_column_not_scanned():
@@ -392,7 +407,7 @@ ALL = {k: v for k, v in list(globals().items()) if k[0] == "F" and k[1].isdigit(
 
 OWNER = {"F1": ["C03"], "F2a": ["C04"], "F2b": ["C04"], "F3a": ["C05"], "F3b": ["C05"], "F3c": ["C05"], "F4": ["C06"],
          "F5": ["C07"], "F6": ["C08"], "F7": ["C10"], "F8": ["C11", "C13"], "F8b": ["C11", "C13"], "F9a": ["C16"], "F9b": ["C16"],
-         "F9c": ["C19"], "F9d": ["C16"], "F9e": ["C02", "C16"], "F10a": ["C18"], "F10b": ["C18"], "F11": ["C20"]}
+         "F9c": ["C19"], "F17": ["C19"], "F9d": ["C16"], "F9e": ["C02", "C16"], "F10a": ["C18"], "F10b": ["C18"], "F11": ["C20"]}
 
 
 def for_property(pid):
